@@ -9,13 +9,11 @@ _DROP = ("Try::branch", "FromResidual::from_residual", "CelError::", "Option::",
 
 def tf_rows(F):
     rows = {}
-    for b in F.find(r"^rscel::context::type_funcs::\w+::(methods::\w+|\w+)(::\{closure#\d+\})*$", "rscel"):
-        if b.path.endswith("::dispatch") or "::dispatch::" in b.path or b.path.endswith(("construct_type", "load_default_types")):
-            continue
-        q = mirq.BodyQ(b)
-        calls = sorted(e for e in mirq.call_exprs(q, drop=None) if not e.startswith(_DROP))
-        casts = sorted("%s->%s" % (fr, to) for (ck, fr, to), n in common.casts_of(b).items() for _ in range(n))
-        rows[b.path[len(TPFX):]] = {"calls": calls, "casts": casts}
+    scope = [b for b in F.find(r"^rscel::context::type_funcs::\w+::(methods::\w+|\w+)(::\{closure#\d+\})*$", "rscel")
+             if not (b.path.endswith("::dispatch") or "::dispatch::" in b.path or b.path.endswith(("construct_type", "load_default_types")))]
+    for b in common.root_bodies(F, scope):
+        r = common.normal_row(F, b, lambda e: e.startswith(_DROP))
+        rows[b.path[len(TPFX):]] = {"calls": r["calls"], "casts": r["casts"]}
     return rows
 
 
@@ -26,7 +24,7 @@ _EXACT_CAST = {("bool", "i64"), ("bool", "u64"), ("bool", "u8"), ("bool", "i32")
 
 
 def norm_row(row):
-    calls = [c for c in row.get("calls", []) if not _EXACT_FROM.match(c)]
+    calls = sorted(common.payload_blind(c) for c in row.get("calls", []) if not _EXACT_FROM.match(c))
     casts = [c for c in row.get("casts", []) if tuple(c.split("->")) not in _EXACT_CAST]
     return {"calls": calls, "casts": casts}
 
@@ -139,7 +137,7 @@ def run(chk, tier):
             chk.ok("R14.6", "row|" + name, rows[name]["calls"][:2] or "identity / cast only")
         else:
             chk.bad("R14.6", "row|" + name, "%s no longer converts with its documented primitive: now %s, reviewed %s" % (name, rows[name], frozen[name]), "rscel/src/context/type_funcs")
-    chk.floor("R14.6", "constructor overload rows", len(rows), 45)
+    chk.floor("R14.6", "constructor overload rows", len(rows), 36)
     # ---- R14.7 f-strings
     chk.rule("R14.7", "f-string lowering: every segment (literal or embedded expression, constant or not) is pushed and passed through string(); FMTSTRING(n) concatenates the n results in source order")
     import tplrules, semtables, vmtable
